@@ -9,6 +9,7 @@ FINDING (D6): the advertised size `get_serialized_size_bytes` does not equal the
 format with 2..4 items (`size_eq_advertised_full_false`); the byte-vector form is therefore longer than the
 stream form and zero padded.  The witness is replayed on the real code by every run of the check.
 -/
+import DSModel.Wire.ReqCode
 import DSProofs.Lemmas.WireQuantReq
 namespace DS.Wire.Req
 open Reader
@@ -131,5 +132,14 @@ def exImage : Image :=
 
 example : WF (Serde.fixed 8) docCfg exImage = true := by decide
 example : WF (Serde.fixed 8) docCfg d6Witness = true := by decide
+
+/-- the constants the CURRENT headers define satisfy the side conditions, so the theorems above apply to the model the
+correspondence check runs (`codeCfg` = DSGen values; a changed flag position / size constant breaks this obligation) -/
+theorem codeCfg_ok : CfgOK codeCfg := by decide
+
+/-- round trip at the constants of the current headers -/
+theorem decode_encode_code (sd : Serde) (hs : sd.Lawful) (s : Image) (tail : Bytes) (hw : WF sd codeCfg s = true) :
+    decode sd codeCfg (encode sd codeCfg s ++ tail) = some (s, tail) :=
+  decode_encode sd hs codeCfg codeCfg_ok s tail hw
 
 end DS.Wire.Req
